@@ -172,11 +172,14 @@ def check(ctx):
     nh = sum(1 for (rc, out, err) in res if parse_result(out).get("hang") == "1")
     nc = sum(1 for (rc, out, err) in res if parse_result(out).get("crash") == "1")
     nstuck = sum(1 for (rc, out, err) in res if int(parse_result(out).get("stuck_after_cycles", 0) or 0) > 0)
-    if nstuck >= max(3, len(cases) // 4):
+    ncyc_cases = sum(1 for c in cases if int(c[1].split()[7]) > 0)
+    # the lost wake-up leaves a disconnected client alive in up to ~20 % of the runs at high yield rates;
+    # when (almost) every run that disconnects clients shows it, teardown on disconnect is broken
+    if nstuck >= 4 and nstuck * 10 >= ncyc_cases * 7:
         ctx.violation("threaded event loop (sampled run): in %d of %d stress runs disconnected clients are not torn down "
                       "(clientGoneHook does not run when the connection ends) - not the rare lost wake-up" % (nstuck, len(cases)),
                       {"defect": "gone_count"}, "script:\n" + "\n".join(cases[0]) + "\n\n%d of %d stress cases left disconnected clients alive" % (nstuck, len(cases)))
-    if nh >= max(3, len(cases) // 4):
+    if nh >= max(5, (len(cases) * 35) // 100):
         ctx.violation("threaded event loop (sampled run): %d of %d stress runs hang - not the rare lost wake-up" % (nh, len(cases)),
                       {"defect": "hang_systematic"}, "script:\n" + "\n".join(cases[0]) + "\n\n%d of %d stress cases hit the watchdog" % (nh, len(cases)))
     if nc >= max(4, (len(cases) * 2) // 5):
